@@ -3,7 +3,7 @@
    cong m a b := exists c, a - b = c * m.
    sound f m k fr (ok,n,d) := ok = true -> cong m n (d*f) /\ |n| < k /\ 0 < d /\ (fr = true -> Z.gcd n d = 1). *)
 From Coq Require Import ZArith.
-From C11 Require Import Model ProofsLoop ProofsSound ProofsComplete PolyModel PolyProofs.
+From C11 Require Import Model ProofsLoop ProofsSound ProofsComplete ProofsEntry PolyModel PolyProofs PolyLists.
 Local Open Scope Z_scope.
 
 (* the loop of ratrecon terminates within the fuel 2*log2 m + 4 for every f, m >= 2, k >= 1 *)
@@ -37,6 +37,28 @@ Theorem C11_rr4_complete : RR4_complete.                       Proof. exact rr4_
 Print Assumptions C11_rr4_complete.
 Theorem C11_rr4_complete_inverse : RR4_complete_inverse.       Proof. exact rr4_complete_inverse. Qed.
 Print Assumptions C11_rr4_complete_inverse.
+(* the Reduce guarantee of the callers without a success report: when the last call of ratrecon made by Rational(f,m,k,recurs)
+   (resp. by both QField<Rational>::ratrecon forms) succeeded, the stored pair has num == den*f (mod m), den > 0, gcd = 1 under
+   Rational::flags = Reduce, and |num| < k' for the bound k' in use (k, or k < k' < f inside the widening loop, also past m) *)
+Theorem C11_rational_ctor_sound : RatCtor_sound.               Proof. exact ratctor_sound. Qed.
+Print Assumptions C11_rational_ctor_sound.
+Theorem C11_qfield_ratrecon_sound : QField_sound.              Proof. exact qfield_sound. Qed.
+Print Assumptions C11_qfield_ratrecon_sound.
+(* ... and when the first call succeeds the constructor stores exactly that reconstruction (the widening loop does not run) *)
+Theorem C11_rational_ctor_first : RatCtor_first.               Proof. exact ratctor_first. Qed.
+Print Assumptions C11_rational_ctor_first.
+(* completeness through every other entry point: RationalReconstruction(a,b,f,m,k,fr,rc) (any representative f, also the x == 0
+   shortcut), Rational(f,m,k,recurs), QField<Rational>::ratrecon with a bound and with the default bound sqrt m *)
+Theorem C11_rr7_complete : RR7_complete.                       Proof. exact rr7_complete. Qed.
+Print Assumptions C11_rr7_complete.
+Theorem C11_rr7_complete_envelope : RR7_complete_envelope.     Proof. exact rr7_complete_envelope. Qed.
+Print Assumptions C11_rr7_complete_envelope.
+Theorem C11_rational_ctor_complete : RatCtor_complete.         Proof. exact ratctor_complete. Qed.
+Print Assumptions C11_rational_ctor_complete.
+Theorem C11_qfield_complete_k : QField_complete_k.             Proof. exact qfield_complete_k. Qed.
+Print Assumptions C11_qfield_complete_k.
+Theorem C11_qfield_complete : QField_complete.                 Proof. exact qfield_complete. Qed.
+Print Assumptions C11_qfield_complete.
 (* polynomial ratrecon: N == D*P (mod M), deg N <= dk, D <> 0, over every ring with a degree function *)
 Theorem C11_poly_ratrecon_sound : Poly_ratrecon_sound.         Proof. exact poly_ratrecon_sound_full. Qed.
 Print Assumptions C11_poly_ratrecon_sound.
@@ -47,3 +69,14 @@ Print Assumptions C11_poly_ratreconcheck_sound.
 (* ... and it terminates within the fuel deg P + deg M + 4 whenever div is a Euclidean quotient (deg (a - (a div b) b) < deg b) *)
 Theorem C11_poly_ratrecon_terminates : Poly_ratrecon_total.   Proof. exact poly_ratrecon_total_full. Qed.
 Print Assumptions C11_poly_ratrecon_terminates.
+(* the same three clauses for the CONCRETE coefficient-vector polynomials: every operation ratrecon calls (degree, assign,
+   divmodin = Newton-inverse division + Karatsuba product, maxpyin, gcd, leadcoef, divin) is the model of Poly1Dom of coq/C08,
+   over every coefficient domain satisfying the field laws, for every Karatsuba threshold >= 1; the ring and degree laws are
+   proved (C08's theorems + PolyLists.v), not assumed.  Equality of polynomials is coefficientwise (C08.Spec.peq). *)
+Theorem C11_list_ratrecon_sound : List_ratrecon_sound.         Proof. exact list_ratrecon_sound. Qed.
+Print Assumptions C11_list_ratrecon_sound.
+Theorem C11_list_ratrecon6_sound : List_ratrecon6_sound.       Proof. exact list_ratrecon6_sound. Qed.
+Print Assumptions C11_list_ratrecon6_sound.
+(* a success of ratreconcheck passed the gcd-degree test and is ratrecon's pair, possibly divided by leadcoef D *)
+Theorem C11_list_ratreconcheck_reduced : List_ratreconcheck_reduced. Proof. exact list_ratreconcheck_reduced. Qed.
+Print Assumptions C11_list_ratreconcheck_reduced.
